@@ -187,7 +187,341 @@ impl FixtureDatabase {
 
 }
 
+// =====================================================================================================================
+// L2 — property C14, second sentence, text level.  Every lemma is PROVED from the operational specs of prelude/scanvenv_spec.rs.
+
+// ---- (E1) entry_points.txt: "the entries `name = module[:attr]` of the lines between the `[pytest11]` header and the next
+// `[section]` header, comments / blank lines skipped, in order"
+/// line k lies in the pytest11 section: some earlier line is (trimmed) exactly `[pytest11]` and no header line lies between
+pub open spec fn in_section(ls: Seq<Seq<char>>, k: int) -> bool {
+    exists|h: int| 0 <= h < k && #[trigger] trim_v(ls[h]) == pytest11_header() && forall|j: int| h < j < k ==> !is_header(#[trigger] trim_v(ls[j]))
+}
+/// line k contributes an entry
+pub open spec fn accepted(ls: Seq<Seq<char>>, k: int) -> bool {
+    in_section(ls, k) && !is_header(trim_v(ls[k])) && is_entry_candidate(trim_v(ls[k])) && entry_of(trim_v(ls[k])) is Some
+}
+/// the entries of the accepted lines among the first n, in line order
+pub open spec fn collect(ls: Seq<Seq<char>>, n: int) -> Seq<EpV>
+    decreases n
+{
+    if n <= 0 { Seq::empty() } else if accepted(ls, n - 1) { collect(ls, n - 1).push(entry_of(trim_v(ls[n - 1]))->0) } else { collect(ls, n - 1) }
+}
+proof fn lemma_header_is_header()
+    ensures is_header(pytest11_header()),
+{
+    reveal_strlit("[pytest11]");
+}
+//@tags C14
+/// the parser's section flag is exactly "the line lies between `[pytest11]` and the next header"
+pub proof fn lemma_C14_section_flag(ls: Seq<Seq<char>>, k: int)
+    requires 0 <= k <= ls.len(),
+    ensures pp_fold(ls, k).0 == in_section(ls, k),
+    decreases k,
+{
+    lemma_header_is_header();
+    if k > 0 {
+        lemma_C14_section_flag(ls, k - 1);
+        let t = trim_v(ls[k - 1]);
+        if is_header(t) {
+            if t == pytest11_header() {
+                assert(in_section(ls, k)) by { let h = k - 1; assert(trim_v(ls[h]) == pytest11_header()); }
+            } else if in_section(ls, k) {
+                let h = choose|h: int| 0 <= h < k && #[trigger] trim_v(ls[h]) == pytest11_header() && forall|j: int| h < j < k ==> !is_header(#[trigger] trim_v(ls[j]));
+                if h < k - 1 { assert(!is_header(trim_v(ls[k - 1]))); }
+            }
+        } else {
+            if in_section(ls, k - 1) {
+                let h = choose|h: int| 0 <= h < k - 1 && #[trigger] trim_v(ls[h]) == pytest11_header() && forall|j: int| h < j < k - 1 ==> !is_header(#[trigger] trim_v(ls[j]));
+                assert(forall|j: int| h < j < k ==> !is_header(#[trigger] trim_v(ls[j])));
+                assert(trim_v(ls[h]) == pytest11_header());
+            }
+            if in_section(ls, k) {
+                let h = choose|h: int| 0 <= h < k && #[trigger] trim_v(ls[h]) == pytest11_header() && forall|j: int| h < j < k ==> !is_header(#[trigger] trim_v(ls[j]));
+                assert(h < k - 1);
+                assert(trim_v(ls[h]) == pytest11_header());
+            }
+        }
+    }
+}
+//@tags C14
+/// (E1) the result is, in order, exactly the entries of the accepted lines
+pub proof fn lemma_C14_parse_is_collect(ls: Seq<Seq<char>>, n: int)
+    requires 0 <= n <= ls.len(),
+    ensures pp_fold(ls, n).1 == collect(ls, n),
+    decreases n,
+{
+    if n > 0 {
+        lemma_C14_parse_is_collect(ls, n - 1);
+        lemma_C14_section_flag(ls, n - 1);
+    }
+}
+//@tags C14
+/// completeness: the entry of every accepted line is in the result
+pub proof fn lemma_C14_every_entry_found(content: Seq<char>, k: int)
+    requires 0 <= k < lines_v(content).len(), accepted(lines_v(content), k),
+    ensures op_parse_pytest11(content).contains(entry_of(trim_v(lines_v(content)[k]))->0),
+{
+    let ls = lines_v(content);
+    lemma_C14_parse_is_collect(ls, ls.len() as int);
+    lemma_collect_contains(ls, ls.len() as int, k);
+}
+proof fn lemma_collect_contains(ls: Seq<Seq<char>>, n: int, k: int)
+    requires 0 <= k < n, accepted(ls, k),
+    ensures collect(ls, n).contains(entry_of(trim_v(ls[k]))->0),
+    decreases n,
+{
+    let e = entry_of(trim_v(ls[k]))->0;
+    if k == n - 1 {
+        assert(collect(ls, n).last() == e);
+    } else {
+        lemma_collect_contains(ls, n - 1, k);
+        let i = choose|i: int| 0 <= i < collect(ls, n - 1).len() && #[trigger] collect(ls, n - 1)[i] == e;
+        assert(collect(ls, n)[i] == e);
+    }
+}
+//@tags C14
+/// soundness: every entry of the result comes from an accepted line (nothing outside the section, no comment, no header)
+pub proof fn lemma_C14_only_section_entries(ls: Seq<Seq<char>>, n: int, i: int)
+    requires 0 <= n <= ls.len(), 0 <= i < collect(ls, n).len(),
+    ensures exists|k: int| 0 <= k < n && accepted(ls, k) && collect(ls, n)[i] == entry_of(#[trigger] trim_v(ls[k]))->0,
+    decreases n,
+{
+    if n > 0 {
+        if accepted(ls, n - 1) && i == collect(ls, n - 1).len() {
+            assert(collect(ls, n)[i] == entry_of(trim_v(ls[n - 1]))->0);
+        } else {
+            lemma_C14_only_section_entries(ls, n - 1, i);
+            let k = choose|k: int| 0 <= k < n - 1 && accepted(ls, k) && collect(ls, n - 1)[i] == entry_of(#[trigger] trim_v(ls[k]))->0;
+            assert(collect(ls, n)[i] == entry_of(trim_v(ls[k]))->0);
+        }
+    }
+}
+//@tags C14
+/// NOT found (fact): a header spelled with inner spaces, `[ pytest11 ]`, is a header but not THE header: its lines are skipped
+pub proof fn lemma_C14_fact_spaced_header_not_recognised(ls: Seq<Seq<char>>)
+    requires ls.len() == 2, trim_v(ls[0]) == "[ pytest11 ]"@, !is_header(trim_v(ls[1])),
+    ensures pp_fold(ls, 2).1.len() == 0,
+{
+    reveal_strlit("[ pytest11 ]"); reveal_strlit("[pytest11]");
+    assert(is_header(trim_v(ls[0])));
+    assert(trim_v(ls[0]).len() == 12 && pytest11_header().len() == 10);
+    assert(pp_fold(ls, 1) == pp_step(pp_fold(ls, 0), ls[0]));
+    assert(pp_fold(ls, 2) == pp_step(pp_fold(ls, 1), ls[1]));
+}
+
+// ---- (E2) module -> file -------------------------------------------------------------------------------------------------
+/// a module text of plain dotted names: every component is a plain, dot-free path name that the code does not reject
+pub open spec fn plain_parts(parts: Seq<Seq<char>>) -> bool {
+    parts.len() > 0 && forall|i: int| 0 <= i < parts.len() ==> plain_name(#[trigger] parts[i]) && !parts[i].contains('.') && !bad_part(parts[i])
+}
+proof fn lemma_push_all_plain(base: PV, parts: Seq<Seq<char>>, n: int)
+    requires 0 <= n <= parts.len(), forall|i: int| 0 <= i < parts.len() ==> plain_name(#[trigger] parts[i]),
+    ensures push_all(base, parts, n) == base + parts.take(n),
+    decreases n,
+{
+    if n > 0 {
+        lemma_push_all_plain(base, parts, n - 1);
+        let p = parts[n - 1];
+        assert(plain_name(p));
+        assert(!str_is_abs(p)) by { if str_is_abs(p) { assert(p[0] == '/'); assert(p.contains('/')); } }
+        axiom_plain_pv(p);
+        assert(base + parts.take(n - 1) + seq![p] =~= base + parts.take(n));
+    } else {
+        assert(base + parts.take(0) =~= base);
+    }
+}
+/// the `.py` candidate of plain parts: `<base>/<a>/…/<last>.py`
+pub open spec fn py_candidate(base: PV, parts: Seq<Seq<char>>) -> PV { base + parts.drop_last() + seq![parts.last() + seq!['.'] + "py"@] }
+pub open spec fn init_candidate(base: PV, parts: Seq<Seq<char>>) -> PV { base + parts + seq![init_py()] }
+proof fn lemma_candidates(base: PV, m: Seq<char>)
+    requires plain_parts(ep_parts(m)),
+    ensures !any_bad_part(ep_parts(m)), ep_dir(base, m) == base + ep_parts(m),
+        with_ext_v(ep_dir(base, m), "py"@) == py_candidate(base, ep_parts(m)),
+        ep_dir(base, m) + str_pv(init_py()) == init_candidate(base, ep_parts(m)),
+{
+    let parts = ep_parts(m);
+    lemma_push_all_plain(base, parts, parts.len() as int);
+    assert(parts.take(parts.len() as int) =~= parts);
+    let dir = base + parts;
+    assert(dir.last() == parts.last());
+    reveal_strlit("py");
+    axiom_with_ext_plain(dir, "py"@);
+    assert(dir.drop_last() =~= base + parts.drop_last());
+    assert(dir.drop_last().push(dir.last() + seq!['.'] + "py"@) =~= py_candidate(base, parts));
+    reveal_strlit("__init__.py"); reveal_strlit("."); reveal_strlit("..");
+    assert(plain_name(init_py())) by {
+        assert(init_py().len() == 11);
+        assert(!init_py().contains('/')) by {
+            if init_py().contains('/') { let j = choose|j: int| 0 <= j < init_py().len() && init_py()[j] == '/'; assert(false); }
+        }
+    }
+    axiom_plain_pv(init_py());
+}
+//@tags C14
+/// a module `a.b` whose file `<base>/a/b.py` exists resolves to the canonical form of that file (when it lies under the
+/// canonical base); the `.py` file wins over a package directory of the same name
+pub proof fn lemma_C14_module_file_resolves(base: PV, m: Seq<char>)
+    requires plain_parts(ep_parts(m)), fs_exists(py_candidate(base, ep_parts(m))),
+    ensures op_resolve_ep(base, m) == bounded_v(base, py_candidate(base, ep_parts(m))),
+{
+    lemma_candidates(base, m);
+}
+//@tags C14
+/// a package `a.b` (`<base>/a/b/__init__.py`, no `<base>/a/b.py`) resolves to its `__init__.py`
+pub proof fn lemma_C14_package_resolves(base: PV, m: Seq<char>)
+    requires plain_parts(ep_parts(m)), !fs_exists(py_candidate(base, ep_parts(m))),
+        fs_is_dir(base + ep_parts(m)), fs_exists(init_candidate(base, ep_parts(m))),
+    ensures op_resolve_ep(base, m) == bounded_v(base, init_candidate(base, ep_parts(m))),
+{
+    lemma_candidates(base, m);
+}
+//@tags C14
+/// NOT found (fact): a namespace package (directory without `__init__.py`, no `.py` file of that name) does not resolve
+pub proof fn lemma_C14_fact_namespace_package_not_resolved(base: PV, m: Seq<char>)
+    requires plain_parts(ep_parts(m)), !fs_exists(py_candidate(base, ep_parts(m))), !fs_exists(init_candidate(base, ep_parts(m))),
+    ensures op_resolve_ep(base, m) is None,
+{
+    lemma_candidates(base, m);
+}
+//@tags C14 C11
+/// whatever resolves lies (canonically) under the canonical base directory: path traversal cannot leave it
+pub proof fn lemma_C14_resolved_is_bounded(base: PV, m: Seq<char>)
+    requires op_resolve_ep(base, m) is Some,
+    ensures fs_canonical(base) is Some, pv_is_prefix(fs_canonical(base)->0, op_resolve_ep(base, m)->0),
+{}
+//@tags C14 C11
+/// rejections: an empty component (`a..b`, leading / trailing dot, empty text) and a NUL byte give None
+pub proof fn lemma_C14_rejects_bad_component(base: PV, m: Seq<char>, i: int)
+    requires 0 <= i < ep_parts(m).len(), ep_parts(m)[i].len() == 0 || ep_parts(m)[i].contains('\0'),
+    ensures op_resolve_ep(base, m) is None,
+{
+    let p = ep_parts(m)[i];
+    if p.len() > 0 {
+        lemma_find_k(p, ch('\0'));
+        let j = choose|j: int| 0 <= j < p.len() && p[j] == '\0';
+        assert(occurs_at(p, ch('\0'), j));
+    }
+    assert(bad_part(ep_parts(m)[i]));
+}
+//@tags C14
+/// the `:attr` suffix is dropped before resolution
+pub proof fn lemma_C14_attr_suffix_ignored(base: PV, m: Seq<char>, attr: Seq<char>)
+    requires !m.contains(':'),
+    ensures op_resolve_ep(base, m + seq![':'] + attr) == op_resolve_ep(base, m),
+{
+    lemma_split_def_cons(m, ':', attr);
+    lemma_split_def_none(m, ':');
+    assert(ep_module(m + seq![':'] + attr) == m);
+    assert(ep_module(m) == m);
+}
+
+// ---- (E3) dist-info names ---------------------------------------------------------------------------------------------------
+//@tags C14
+/// `<name>-<version>.dist-info` with a version that starts with a digit and a name without `-<digit>`: the raw name is
+/// <name> (the split is at the FIRST `-<digit>`, so hyphens inside the name are kept)
+pub proof fn lemma_C14_dist_name(name: Seq<char>, version: Seq<char>)
+    requires version.len() > 0, is_digit(version[0]), forall|k: int| !dash_digit_at(name, k),
+    ensures raw_name_of(name + seq!['-'] + version) == name,
+{
+    let nv = name + seq!['-'] + version;
+    lemma_first_dash_digit(nv, 0);
+    let n = name.len() as int;
+    assert(dash_digit_at(nv, n));
+    assert forall|j: int| 0 <= j < n implies !dash_digit_at(nv, j) by {
+        if dash_digit_at(nv, j) {
+            if j + 1 < n { assert(dash_digit_at(name, j)); } else { assert(nv[j + 1] == '-'); }
+        }
+    }
+    assert(first_dash_digit(nv, 0) == Some(n));
+    assert(nv.take(n) =~= name);
+}
+//@tags C14
+/// fact: a name that itself contains `-<digit>` is cut there (`foo-2bar-1.0` gives `foo`)
+pub proof fn lemma_C14_fact_dist_name_cut_at_first_dash_digit(nv: Seq<char>, k: int)
+    requires dash_digit_at(nv, k), forall|j: int| 0 <= j < k ==> !dash_digit_at(nv, j),
+    ensures raw_name_of(nv) == nv.take(k),
+{
+    lemma_first_dash_digit(nv, 0);
+}
+
+// ---- (E4) .pth files, order-free reading ---------------------------------------------------------------------------------------
+proof fn lemma_pth_first(sp: PV, cands: Seq<Seq<char>>, e: Seq<(Seq<char>, PV)>, k: int)
+    requires 0 <= k <= e.len(),
+    ensures match pth_first(sp, cands, e, k) {
+        Some(p) => exists|i: int| k <= i < e.len() && pth_file_root(sp, cands, (#[trigger] e[i]).0, e[i].1) == Some(p),
+        None => forall|i: int| k <= i < e.len() ==> pth_file_root(sp, cands, (#[trigger] e[i]).0, e[i].1) is None },
+    decreases e.len() - k,
+{
+    if k < e.len() {
+        if pth_file_root(sp, cands, e[k].0, e[k].1) is None { lemma_pth_first(sp, cands, e, k + 1); }
+    }
+}
+//@tags C14
+/// whatever the hash order of the index: a returned root is the root some matching `.pth` entry of the index contributes,
+/// and None is returned only if NO entry contributes one
+pub proof fn lemma_C14_pth_root_order_free(sp: PV, idx: &PthIndex, raw: Seq<char>, norm: Seq<char>)
+    ensures match op_pth_root(sp, idx, raw, norm) {
+        Some(p) => exists|stem: Seq<char>| #[trigger] hmv(idx).contains_key(stem) && pth_file_root(sp, pth_cands(raw, norm), stem, hmv(idx)[stem]) == Some(p),
+        None => forall|stem: Seq<char>| #[trigger] hmv(idx).contains_key(stem) ==> pth_file_root(sp, pth_cands(raw, norm), stem, hmv(idx)[stem]) is None },
+{
+    let e = pairs_v(hm_enum(idx));
+    let cands = pth_cands(raw, norm);
+    axiom_pth_enum(idx);
+    lemma_pth_first(sp, cands, e, 0);
+    match op_pth_root(sp, idx, raw, norm) {
+        Some(p) => {
+            let i = choose|i: int| 0 <= i < e.len() && pth_file_root(sp, cands, (#[trigger] e[i]).0, e[i].1) == Some(p);
+            assert(hmv(idx).contains_key(e[i].0));
+        },
+        None => {
+            assert forall|stem: Seq<char>| #[trigger] hmv(idx).contains_key(stem) implies pth_file_root(sp, cands, stem, hmv(idx)[stem]) is None by {
+                let i = choose|i: int| 0 <= i < e.len() && (#[trigger] e[i]).0 == stem;
+                assert(pth_file_root(sp, cands, e[i].0, e[i].1) is None);
+            }
+        },
+    }
+}
+//@tags C14
+/// NOT found (fact): a `.pth` file all of whose lines are blank, comments or `import …` lines (the import-hook style
+/// of PEP 660 editable installs) yields no source root
+pub proof fn lemma_C14_fact_import_hook_pth_has_no_root(sp: PV, ls: Seq<Seq<char>>, k: int)
+    requires 0 <= k <= ls.len(), forall|j: int| 0 <= j < ls.len() ==> line_skipped(#[trigger] trim_v(ls[j])),
+    ensures pth_lines_root(sp, ls, k) is None,
+    decreases ls.len() - k,
+{
+    if k < ls.len() { assert(line_skipped(trim_v(ls[k]))); lemma_C14_fact_import_hook_pth_has_no_root(sp, ls, k + 1); }
+}
+
+// ---- vacuity guards: each of these must FAIL ----------------------------------------------------------------------------------
+/// every line is an entry
 proof fn canary_parse_everything_is_entry(ls: Seq<Seq<char>>) requires ls.len() == 1 ensures pp_fold(ls, 1).1.len() == 1 {}
+/// the section never ends (entries after the next header are still taken)
+proof fn canary_section_never_ends(ls: Seq<Seq<char>>, k: int)
+    requires 0 <= k < ls.len(), exists|h: int| 0 <= h < k && trim_v(ls[h]) == pytest11_header()
+    ensures in_section(ls, k) {}
+/// everything resolves
+proof fn canary_everything_resolves(base: PV, m: Seq<char>) ensures op_resolve_ep(base, m) is Some {}
+/// the package `__init__.py` wins over the module file
+proof fn canary_init_before_module(base: PV, m: Seq<char>)
+    requires plain_parts(ep_parts(m)), fs_exists(py_candidate(base, ep_parts(m))), fs_is_dir(base + ep_parts(m)), fs_exists(init_candidate(base, ep_parts(m))),
+    ensures op_resolve_ep(base, m) == bounded_v(base, init_candidate(base, ep_parts(m)))
+{ lemma_candidates(base, m); }
+/// a result outside the base directory
+proof fn canary_unbounded_result(base: PV, m: Seq<char>, p: PV)
+    requires op_resolve_ep(base, m) == Some(p) ensures !pv_is_prefix(fs_canonical(base)->0, p) {}
+/// the name is split at the LAST dash
+proof fn canary_dist_name_last_dash(nv: Seq<char>, k: int, k2: int)
+    requires dash_digit_at(nv, k), dash_digit_at(nv, k2), k < k2 ensures raw_name_of(nv) == nv.take(k2) { lemma_first_dash_digit(nv, 0); }
+/// every directory name is a dist-info name
+proof fn canary_every_dir_is_dist_info(d: Seq<char>) ensures op_dist_name(d) is Some {}
+/// every stem matches
+proof fn canary_every_stem_matches(stem: Seq<char>, c: Seq<char>) ensures stem_matches(stem, c) {}
+/// an `import` line is a path line
+proof fn canary_import_line_is_path(sp: PV, ls: Seq<Seq<char>>)
+    requires ls.len() == 1, occurs_at(trim_v(ls[0]), st("import "@), 0), line_root(sp, trim_v(ls[0])) is Some
+    ensures pth_lines_root(sp, ls, 0) is Some {}
+/// the assumed primitives are contradictory
+proof fn canary_prims_inconsistent(s: &str) ensures false { lemma_fits(s); axiom_pth_enum(&arbitrary::<PthIndex>()); }
 
 } // verus!
 fn main() {}
